@@ -141,3 +141,50 @@ for _q, _ in PARSERS:
 
 REG.note('C08', 'trusted', 'm2_parse_safety: Parser methods and nested parse() calls are opaque and assumed to raise only '
                            'DecodeError-family exceptions (Parser: proved in contracts/codec.py); attribute/index errors on opaque values are not modelled')
+
+
+# ---------------------------------------------------------------------------------------------------------------------
+# every _sendError(...) call site: first argument is an AlertDescription constant, and the call is iterated
+# (F40: an Alert OBJECT was passed as the description; seed C10-5: a bare call of the generator sends nothing)
+import ast as _ast
+import os as _os
+
+from pyvc.asttask import AstTask as _AstTask, parent_map as _parent_map
+from pyvc import source as _source
+
+
+class SendErrorSites(_AstTask):
+    def run(self, reg, meta):
+        n_sites = 0
+        for rel in ('tlslite/tlsconnection.py', 'tlslite/tlsrecordlayer.py'):
+            path = _os.path.join(_source.REPO, rel)
+            tree = _source.module_ast(path)
+            pm = _parent_map(tree)
+            for n in _ast.walk(tree):
+                if not (isinstance(n, _ast.Call) and isinstance(n.func, _ast.Attribute) and n.func.attr == '_sendError'):
+                    continue
+                n_sites += 1
+                a0 = n.args[0] if n.args else None
+                const = isinstance(a0, _ast.Attribute) and isinstance(a0.value, _ast.Name) and a0.value.id == 'AlertDescription'
+                if not const and isinstance(a0, _ast.Name):
+                    # a local that is only ever assigned AlertDescription constants in the enclosing function
+                    fn = n
+                    while id(fn) in pm and not isinstance(fn, _ast.FunctionDef):
+                        fn = pm[id(fn)]
+                    assigns = [x for x in _ast.walk(fn) if isinstance(x, _ast.Assign)
+                               and any(isinstance(t, _ast.Name) and t.id == a0.id for t in x.targets)]
+                    const = bool(assigns) and all(isinstance(x.value, _ast.Attribute) and isinstance(x.value.value, _ast.Name)
+                                                  and x.value.value.id == 'AlertDescription' for x in assigns)
+                self.holds('%s:L%d:description-is-an-AlertDescription-constant' % (rel.split('/')[-1], n.lineno), 'ast', const,
+                           reason='first argument of _sendError is %s' % (_ast.unparse(a0) if a0 is not None else None), where=n.lineno)
+                par = pm.get(id(n))
+                iterated = isinstance(par, _ast.For) and par.iter is n
+                self.holds('%s:L%d:the-generator-is-iterated(for-result-in)' % (rel.split('/')[-1], n.lineno), 'ast', iterated,
+                           reason='_sendError is a generator function: called as %s nothing is sent and nothing is raised'
+                                  % type(par).__name__, where=n.lineno)
+        self.holds('call-sites-found', 'ast', n_sites >= 100, reason='only %d _sendError call sites found' % n_sites)
+
+
+REG.add_task(SendErrorSites('_sendError-call-sites', ('C08', 'C17'), 'tlslite/tlsrecordlayer.py:TLSRecordLayer._sendError',
+                            doc='whole-file scan of tlsconnection.py / tlsrecordlayer.py: every _sendError call passes an AlertDescription '
+                                'constant as the description and is driven by `for result in ...`'))
